@@ -195,7 +195,21 @@ fn main() {{
 
 
 def run_illformed(tier, ctx):
-    """Returns (evaluations, distinct, samples, violations{sig: rec}, inconclusive[], detail)."""
+    """Returns (evaluations, distinct, samples, violations{sig: rec}, inconclusive[], detail).
+    The programs are built and run in the dev profile and again in the release profile: a rejection that only
+    exists as a debug assertion protects nobody who builds with --release."""
+    ev, distinct, samples, viol, inc, detail = _run_illformed_profile(tier, ctx, False)
+    ev2, distinct2, samples2, viol2, inc2, detail2 = _run_illformed_profile(tier, ctx, True)
+    for sig, v in viol2.items():
+        t = viol.setdefault(sig, dict(count=0, first=[], lane="probe"))
+        t["count"] += v["count"]
+        t["first"] = (t["first"] + v["first"])[:3]
+    detail["illformed_release_profile"] = {k: detail2[k] for k in ("illformed_bins", "illformed_outcomes", "illformed_by_pair",
+                                                                    "illformed_control_programs", "illformed_control_compiled")}
+    return ev + ev2, distinct, samples + samples2[:2], viol, inc + [f"release:{i}" for i in inc2], detail
+
+
+def _run_illformed_profile(tier, ctx, release):
     root = os.path.join(ctx["WORK"], "probe-illformed")
     target = os.path.join(ctx.get("TARGET", os.path.join(ctx["ROOT"], "target")), "probe-illformed")
     bins = {}
@@ -234,8 +248,8 @@ def run_illformed(tier, ctx):
         controls[name] = cname
     make_crate(root, "probe_illformed", bins, ctx, with_deps=True)
     t = time.time()
-    arts, diags, rc, tail = cargo_build(root, target, ctx)
-    ctx["log"](f"[probe] illformed: {len(bins)} bins (incl. controls), {len(arts)} linked, build {time.time() - t:.1f}s")
+    arts, diags, rc, tail = cargo_build(root, target, ctx, release=release)
+    ctx["log"](f"[probe] illformed ({'release' if release else 'dev'} profile): {len(bins)} bins (incl. controls), {len(arts)} linked, build {time.time() - t:.1f}s")
     inconclusive = []
     if not arts and not diags:
         inconclusive.append("illformed-probe-build-produced-nothing: " + tail[-300:])
@@ -276,7 +290,7 @@ def run_illformed(tier, ctx):
         by_pair.setdefault(f"({b},{l})", {}).setdefault(outcome, 0)
         by_pair[f"({b},{l})"][outcome] += 1
         rec = dict(property="C04", op="illformed", pair=[b, l], constructor=cname, outcome=outcome, detail=detail,
-                   program=bins[name])
+                   program=bins[name], profile="release" if release else "dev")
         if outcome == "value":
             sig = f"C04|illformed|{cname}"
             v = violations.setdefault(sig, dict(count=0, first=[], lane="probe"))
@@ -306,7 +320,7 @@ def replay_illformed(rec, ctx):
     ctx2 = dict(ctx)
     ctx2["WORK"] = os.path.dirname(root)
     make_crate(root, "probe_illformed", {"replay": rec["program"]}, ctx2, with_deps=True)
-    arts, diags, rc, tail = cargo_build(root, target, ctx2)
+    arts, diags, rc, tail = cargo_build(root, target, ctx2, release=rec.get("profile") == "release")
     if "replay" not in arts:
         print("replay: rejected at compile time:", (diags.get("replay") or [{}])[0].get("message", "")[:200])
         return 0
